@@ -281,8 +281,8 @@ func (e *Engine) Discharge(results []*FuncResult, so SolveOpts) {
 	var wg sync.WaitGroup
 	sem := make(chan struct{}, so.Jobs)
 	incT := so.TimeoutMS
-	if incT > 3000 {
-		incT = 3000 // failures are retried standalone, in parallel, with the full timeout
+	if incT > 1000 {
+		incT = 1000 // failures are retried standalone, in parallel, with the full timeout
 	}
 	var mu sync.Mutex
 	for _, fr := range results {
@@ -293,7 +293,7 @@ func (e *Engine) Discharge(results []*FuncResult, so SolveOpts) {
 			o.Status = "unknown"
 			o.Solver = solvers[0].name
 		}
-		scripts := e.BuildScripts(fr, incT, 40)
+		scripts := e.BuildScripts(fr, incT, 24)
 		for i, script := range scripts {
 			f := filepath.Join(so.OutDir, sanitize(fr.Key)+".smt2")
 			if i > 0 {
@@ -337,42 +337,54 @@ func (e *Engine) Discharge(results []*FuncResult, so SolveOpts) {
 			}
 		}
 	}
-	for _, o := range retry {
-		wg.Add(1)
-		go func(o *Obl) {
-			defer wg.Done()
-			sem <- struct{}{}
-			defer func() { <-sem }()
-			script := e.StandaloneScript(o, false, nil)
-			f := filepath.Join(so.OutDir, "obl_"+sanitize(o.Name)+".smt2")
-			os.WriteFile(f, []byte(script), 0o644)
-			type ans struct {
-				status, solver string
-				secs           float64
-			}
-			ch := make(chan ans, len(solvers))
-			ctx, cancel := context.WithCancel(context.Background())
-			for _, s := range solvers {
-				go func(s solverSpec) {
-					out, secs := runSolverCtx(ctx, s, f, so.TimeoutMS, time.Duration(so.TimeoutMS)*time.Millisecond+5*time.Second)
-					ch <- ans{firstStatus(out), s.name, secs}
-				}(s)
-			}
-			best := ans{status: "unknown"}
-			for range solvers {
-				a := <-ch
-				if a.status == "unsat" || a.status == "sat" {
-					best = a
-					if !so.CrossCheck {
-						break
-					}
-				} else if best.status == "unknown" && a.status != "unknown" && !strings.HasPrefix(a.status, "error") {
-					best = a
+	// stage A: two configurations per obligation, 8 obligations at a time (16 processes on 16 cores);
+	// stage B: what is still undecided goes to the whole portfolio, 3 obligations at a time.
+	runStage := func(obls []*Obl, set []solverSpec, par int) {
+		sem2 := make(chan struct{}, par)
+		var wg2 sync.WaitGroup
+		for _, o := range obls {
+			wg2.Add(1)
+			go func(o *Obl) {
+				defer wg2.Done()
+				sem2 <- struct{}{}
+				defer func() { <-sem2 }()
+				script := e.StandaloneScript(o, false, nil)
+				f := filepath.Join(so.OutDir, "obl_"+sanitize(o.Name)+".smt2")
+				os.WriteFile(f, []byte(script), 0o644)
+				type ans struct {
+					status, solver string
+					secs           float64
 				}
-			}
-			cancel()
-			o.Status, o.Solver, o.Time = best.status, best.solver, best.secs
-		}(o)
+				ch := make(chan ans, len(set))
+				ctx, cancel := context.WithCancel(context.Background())
+				for _, s := range set {
+					go func(s solverSpec) {
+						out, secs := runSolverCtx(ctx, s, f, so.TimeoutMS, time.Duration(so.TimeoutMS)*time.Millisecond+5*time.Second)
+						ch <- ans{firstStatus(out), s.name, secs}
+					}(s)
+				}
+				best := ans{status: "unknown"}
+				for range set {
+					a := <-ch
+					if a.status == "unsat" || a.status == "sat" {
+						best = a
+						break
+					} else if best.status == "unknown" && a.status != "unknown" && !strings.HasPrefix(a.status, "error") {
+						best = a
+					}
+				}
+				cancel()
+				o.Status, o.Solver, o.Time = best.status, best.solver, best.secs
+			}(o)
+		}
+		wg2.Wait()
 	}
-	wg.Wait()
+	runStage(retry, []solverSpec{solvers[0], solvers[6]}, 8)
+	var retry2 []*Obl
+	for _, o := range retry {
+		if o.Status != "unsat" && o.Status != "sat" {
+			retry2 = append(retry2, o)
+		}
+	}
+	runStage(retry2, solvers[1:], 3)
 }
